@@ -24,59 +24,61 @@ def run(ctx, rep):
     rep.rule('C10.R1', 'value written only by constructor and by CAS(expected, expected+delta); add returns that sum')
     rep.rule('C10.R2', 'CAS, zero test, drain, re-read and enqueue inside counter_mu; wake-ups under counter_mu; append only after re-reading the value')
     rep.rule('C10.R3', 'the drain loop wakes every waiter')
-    # ---- R1
+    # ---- R1 (who writes the value; what add returns) - stores by a value-flow scan, the CAS and the returned value on the interpretation of
+    # nsync_counter_add in which the loaded value and the delta argument are opaque tokens and their sum is a token too (nsa/lockeng.py)
     add_fn = mod.func('nsync_counter_add')
     if add_fn is None:
         raise AnalysisBroken('C10: nsync_counter_add not found')
-    sums = set()
     for s in util.atomic_sites(mod):
-        if util.last_field(util.addr_class(mod, s.fn, s.addr)) != VALUE or s.kind == 'load':
+        if util.last_field(util.addr_class(mod, s.fn, s.addr)) != VALUE or s.kind in ('load', 'cas'):
             continue
         if s.kind == 'store':
             ac = util.addr_class(mod, s.fn, s.addr)
             ok = ac['kind'] == 'call' and ac['inst'].callee in ('malloc', 'calloc')
             msg = 'the counter value is overwritten by a store outside the constructor (a concurrent add is lost)'
-        elif s.kind == 'cas':
-            exp, new = s.ops
-            ni = s.fn.imap.get(new) if isinstance(new, str) else None
-            ok = ni is not None and ni.op in ('add', 'sub') and exp in ni.ops and s.fn is add_fn and any(o == 'a1' for o in ni.ops)
-            if ok:
-                sums.add(ni.id)
-            msg = 'the CAS on the counter value does not install expected + delta'
         else:
             ok, msg = False, 'unexpected RMW on the counter value'
         rep.instance('C10.R1', '%s at %s' % (s.kind, s.where())); rep.oblig('C10.R1', ok)
         if not ok:
             rep.violate(Violation('C10.R1', s.where(), msg, site='%s/value-write' % s.fn.name))
-    # returned value
-    rets = [i for i in add_fn.real_insts() if i.op == 'ret']
-    for rt in rets:
-        v = rt.ops[0]
-        srcs = []
-        def collect(ref, seen):
-            if not isinstance(ref, str) or ref in seen:
-                return
-            seen.add(ref)
-            i = add_fn.imap.get(ref)
-            if i is not None and i.op == 'phi':
-                for x, _ in i.ops:
-                    collect(x, seen)
-            else:
-                srcs.append(ref)
-        collect(v, set())
-        for sref in srcs:
-            i = add_fn.imap.get(sref)
-            ok = False
-            if i is not None and i.op in ('add', 'sub') and (i.id in sums or _same_sum(add_fn, i, sums)):
-                ok = True
-            elif i is not None and i.op == 'load' and i.ord in ('acquire', 'seq_cst') and util.last_field(util.addr_class(mod, add_fn, i.ops[0])) == VALUE:
-                # allowed only on the delta == 0 path
-                ok = any(n[0] == 'eq' and n[1] == 'a1' and IR.is_int(n[2]) and IR.ival(n[2]) == 0 for n in (_norm_cmp(add_fn, c, s) for c, s in _guards(add_fn, i)) if n)
-            rep.instance('C10.R1', 'value returned by add: %s at %s' % (i.op if i is not None else sref, i.where() if i is not None else rt.where()))
-            rep.oblig('C10.R1', ok)
+    DELTA = objmodel.DELTA
+    def is_sum_of(v, e):
+        return isinstance(v, Ptr) and v.base == 'sum:' + '+'.join(sorted((DELTA.base, e.base))) if isinstance(e, Ptr) else False
+    sums = set()
+    ncas = 0
+    for r in eng.records:
+        if r.kind == 'valcas' and r.field == VALUE:
+            ncas += 1
+            s = r.site(eng.wrappers)
+            ok = isinstance(r.expected, Ptr) and r.expected.base.startswith('tok:val:') and is_sum_of(r.new, r.expected) and r.entry == 'nsync_counter_add'
+            if ok:
+                sums.add(r.new.base)
+            rep.instance('C10.R1', 'cas at %s: expected %s new %s [%s]' % (s.where(), getattr(r.expected, 'base', r.expected), getattr(r.new, 'base', r.new), r.entry)); rep.oblig('C10.R1', ok)
             if not ok:
-                rep.violate(Violation('C10.R1', (i or rt).where(), 'nsync_counter_add returns a value that is not the sum it installed with its own CAS (e.g. a later re-read): two callers can be told the same value and a value can be skipped',
-                                      site='nsync_counter_add/returned-value'))
+                rep.violate(Violation('C10.R1', s.where(), 'the CAS on the counter value does not install expected + delta (expected is %s, new value is %s)' % (getattr(r.expected, 'base', r.expected), getattr(r.new, 'base', r.new)),
+                                      site='%s/value-write' % s.fn.name))
+    cas_sites = [s for s in util.atomic_sites(mod) if s.kind == 'cas' and util.last_field(util.addr_class(mod, s.fn, s.addr)) == VALUE]
+    if cas_sites and not ncas:
+        raise AnalysisBroken('C10.R1: the CAS on the counter value is not reached by the interpretation of nsync_counter_add')
+    for label, fname, exits in runs:
+        if label != 'nsync_counter_add':
+            continue
+        for x in exits:
+            rv = x.trace[0] if x.trace else None
+            zero = set(k[1] for k in x.ghost if isinstance(k, tuple) and k[0] == 'zero')
+            if isinstance(rv, Ptr) and rv.base in sums:
+                ok, how = True, 'the sum installed by the CAS'
+            elif rv == 0 and (zero & sums):
+                ok, how = True, 'the sum installed by the CAS (found to be 0 on this path)'
+            elif isinstance(rv, Ptr) and rv.base.startswith('tok:val:') and DELTA.base in zero:
+                ok, how = True, 'an acquire load of the value on the delta == 0 path'
+            else:
+                ok, how = False, repr(getattr(rv, 'base', rv))
+            rep.instance('C10.R1', 'value returned by add on an exit path: %s' % how); rep.oblig('C10.R1', ok)
+            if not ok:
+                rep.violate(Violation('C10.R1', '%s:%d in nsync_counter_add' % (IR.rel(add_fn.file), add_fn.line),
+                    'nsync_counter_add returns a value that is not the sum it installed with its own CAS (%s, e.g. a later re-read): two callers can be told the same value and a value can be skipped' % how,
+                    site='nsync_counter_add/returned-value'))
     # ---- R2
     for r in eng.records:
         if r.kind == 'access' and r.field == VALUE and r.access in ('cas', 'store') and not r.obj.base.startswith('heap:'):
@@ -104,17 +106,19 @@ def run(ctx, rep):
             rep.instance('C10.R2', 'append to waiters at %s observed=%s [%s]' % (r.where(), r.observed, r.entry)); rep.oblig('C10.R2', ok)
             if not ok:
                 rep.violate(Violation('C10.R2', r.where(), 'a waiter is appended without re-reading the counter value inside the same critical section: if the counter reached zero just before, the waiter sleeps although a wait that starts at zero must not block', site='%s/stale-append' % r.inst.fn.name))
-    # drain only at zero: the wake store is dominated by (value == 0) in add
-    for s in wakeshape.wake_stores(mod, add_fn):
-        ok = False
-        for n in (_norm_cmp(add_fn, c, sn) for c, sn in _guards(add_fn, s.inst)):
-            if n and n[0] == 'eq' and IR.is_int(n[2]) and IR.ival(n[2]) == 0:
-                vi = add_fn.imap.get(n[1]) if isinstance(n[1], str) else None
-                if vi is not None and (vi.id in sums or _same_sum(add_fn, vi, sums)):
-                    ok = True
-        rep.instance('C10.R2', 'drain at %s guarded by new value == 0: %s' % (s.where(), ok)); rep.oblig('C10.R2', ok)
-        if not ok:
-            rep.violate(Violation('C10.R2', s.where(), 'waiters are woken on a path that is not guarded by (value just produced == 0)', site='nsync_counter_add/drain-guard'))
+    # drain only at zero: every wake-up made by add happens on a path on which the sum just installed was found equal to 0
+    nd = 0
+    for r in eng.records:
+        if r.entry == 'nsync_counter_add' and ((r.kind == 'prim' and r.callee == 'nsync_mu_semaphore_v') or
+                                               (r.kind == 'access' and r.field == 'nsync_waiter_s.waiting' and r.access == 'store' and r.obj.base.startswith(('ld:', 'ret:')))):
+            zero = set(k[1] for k in r.ghost if isinstance(k, tuple) and k[0] == 'zero')
+            ok = bool(zero & sums)
+            nd += 1
+            rep.instance('C10.R2', 'wake-up at %s on a path where the produced value is 0: %s' % (r.where(), ok)); rep.oblig('C10.R2', ok)
+            if not ok:
+                rep.violate(Violation('C10.R2', r.where(), 'waiters are woken on a path that is not guarded by (value just produced == 0)', site='nsync_counter_add/drain-guard'))
+    if nd == 0:
+        raise AnalysisBroken('C10.R2: no wake-up found in nsync_counter_add')
     wakeshape.check_wake_loops(mod, rep, 'C10.R3', only_files=('counter.c',))
     rep.floor('C10.R1', 3)
     rep.floor('C10.R2', 8)
